@@ -41,6 +41,9 @@ def check(ctx, tier):
     column_range_bounds(ctx, tk)
     col_sum(ctx, tk)
     first_match(ctx, "C17.l", ctx.func(RR + "argmax"))
+    from ..coherence import Coherence, report
+    coh = ctx.cached("coherence", lambda: Coherence(tk))
+    report(coh, "C17.m", funcs=[q for q in ctx.program.funcs if q.startswith((R2, RR, IM)) or q == "runlengtharray.rlra_concatenate"])
     fs = [fn for q, fn in ctx.program.funcs.items() if q.startswith(R2) or q.startswith(RR) or q.startswith(IM) or q == "runlengtharray.rlra_concatenate"]
     fs = [fn for fn in fs if not fn.name.startswith("_RunLength")]
     tk.purity("C17.j", [fn for fn in fs if fn.name not in ("__init__",)], "operations on 2-D run-length arrays do not modify their operands", content_only=True)
